@@ -10,6 +10,14 @@ BASELINE = json.load(open('/root/.vp/BASELINE.json'))['cmd'].replace('--junitxml
 
 # id -> (category, technique, text, note, design_ref)
 TABLE = {
+ 'C16': ('model_checking',
+         'explicit-state exploration of file histories (object menu x file type x target x prior file state x overwrite) through the real save / load API, judged by field-wise equality',
+         'Every object of a finite menu - all distinct RDMs / Dataset / TemporalDataset states reached at depth <= 1 (thorough 2) of the C10 / C11 operation searches, descriptor-type variants (int, float, str, non-ASCII str, lists, ndarrays, matrix-valued descriptor, absent measure, NaN/inf), the model classes, Results of eval_fixed / eval_bootstrap_rdm / crossval - is saved and reloaded as hdf5 and pkl, by path and by open handle, onto a fresh file and onto a file already holding another object, with overwrite off and on; the reloaded object must be field-wise equal (arrays bit-identical, same descriptor keys and values, same classes/names/predictions, same test outputs), the in-memory object keeps its fingerprint, an existing hdf5 path without overwrite is refused and left untouched.',
+         'equality compares descriptor values as python values (container list/ndarray may change); scratch files in a private temporary directory', '4/C16'),
+ 'C19': ('model_checking',
+         'exhaustive enumeration of all binary masks of small volumes x radii x thresholds x centres against brute-force geometry, plus stateless exploration of EVERY joblib task completion order under a virtual backend',
+         'All 2^n masks of every volume shape with <= 8 (thorough 12) voxels and structured 4^3/5^3 masks x 5 radii x 3 thresholds x every centre: accepted centres, linear indices and searchlight membership (strictly within radius, in-volume) equal brute force; searchlight RDMs for 1..1100 centres (both sides of the chunking limit) equal direct computation on the searchlight columns, in centre order; evaluate_models_searchlight on 1-4 (thorough 5) centres under every completion order of the queued joblib tasks for n_jobs in {1,2,3} (virtual backend owning joblib\'s polling loop) returns one result per centre in centre order; one free-running loky run as conformance.',
+         'worker-process effects (pickling, memory) outside the virtual-backend model', '4/C19'),
  'C01': ('exploration',
          'bounded exhaustive enumeration of input structure (all set partitions of observations into conditions, namings, containers, dtypes, row orders, list / movie structures) on the real calc_rdm / calc_rdm_movie, judged per unordered label pair by a reference model',
          'Every assignment of <= 5 (thorough 6) observations to condition labels x label namings x list/ndarray descriptors x int/float data x extra descriptors x row permutations x 16 method configurations (euclidean, correlation, mahalanobis with 4 precisions, poisson with 2 priors; remove_mean on/off) is run through the real calc_rdm as single dataset, one-element list and lists of two datasets (equal / overlapping / disjoint condition sets, with and without descriptor), and through calc_rdm_movie for every partition of the time points into bins; each value is looked up by its returned labels and compared with the formula on per-label means; dataset descriptors must sit on the right RDM, pattern descriptors on the right condition.',
